@@ -1,6 +1,10 @@
 package main
 
-import "fmt"
+import (
+	"fmt"
+	"sort"
+	"strings"
+)
 
 var extraCmds = map[string]func([]string) int{}
 
@@ -14,6 +18,25 @@ func init() {
 		for _, x := range f {
 			fmt.Println(x)
 		}
+		fmt.Println("per-search by ownership:", ownedDump("/repo"))
 		return 0
 	}
+}
+
+// ownedDump lists the types the transitive-ownership rule treats as per-search (for review).
+func ownedDump(repo string) []string {
+	base := func(t string) bool {
+		for _, suf := range []string{"State", "Cache", "Set", "Table", "Queue", "Stack", "Config", "Compiler", "Extractor", "Seq", "Iter", "Error", "Stats", "Pool", "Slots", "Buf", "Budget"} {
+			if strings.HasSuffix(t, suf) {
+				return true
+			}
+		}
+		return false
+	}
+	var l []string
+	for k := range ownedOnlyTypes(repo, base) {
+		l = append(l, k)
+	}
+	sort.Strings(l)
+	return l
 }
